@@ -1433,6 +1433,10 @@ class Engine:
                 else:
                     ek = base.kind[1]
                     v = self.elem(ek, seq[j])
+                    if not self.spec_mode and ek.tag in ("str", "int"):
+                        # a lemma of the sequence theory the solvers do not find by themselves: what is read from a
+                        # position of a list is an element of that list
+                        ok = ok.assume(z3.Contains(seq, z3.Unit(seq[j])))
                     res.append(Out("ok", self.assume_valid_ref(ok, v), v))
             if bad is not None:
                 res.append(self.raise_(bad, "IndexError", "index out of range"))
